@@ -69,6 +69,24 @@ def generate() -> dict[str, str]:
     t5 = pylite.translate(Peer.reestablish, cspec())
     t6 = pylite.translate(Peer.stop, cspec())
     idle_ok = ast_arg_is(Peer.stop, 'self.fsm.change', 'FSM.IDLE')
+    # ---- _close: what leaving a session does -------------------------------------------------------------------------
+    xfields = {'proto': 'bool', 'down_called': 'bool', 'fsm_idle': 'bool', 'proto_closed': 'bool'}
+    t7 = pylite.translate(
+        Peer._close,
+        pylite.Spec(
+            cls='Close', fields=xfields, ret='none', uses_now=False, object_params=('message', 'error'),
+            opaque={
+                'self.fsm not in (FSM.IDLE, FSM.ACTIVE)': ('fsmBeyondActive', 'bool'),
+                'self.neighbor.api': ('hasApi', 'bool'),
+                "self.neighbor.api['neighbor-changes']": ('neighborChanges', 'bool'),
+            },
+            const_exprs={'None': ('false', 'bool')},
+            effect_methods={'reactor.processes.down': ('down_called', 'true'), 'fsm.change': ('fsm_idle', 'true'), 'proto.close': ('proto_closed', 'true')},
+            ignore_calls=('log.', 'self.stats.', 'self._delay.'),
+            skip_prefixes=('message = ',),
+        ),
+    )
+    close_idle_ok = ast_arg_is(Peer._close, 'self.fsm.change', 'FSM.IDLE')
     out = [
         '/-! `Peer.handle_connection` of `exabgp/reactor/peer/peer.py`, translated by `harness/pylite.py` (read next to the',
         '    source). `raise c s`: the incoming connection is answered with NOTIFICATION c/s and closed. -/',
@@ -93,6 +111,12 @@ def generate() -> dict[str, str]:
         t4.lean,
         t5.lean,
         t6.lean,
+        pylite.lean_state_structure('Close', xfields),
+        '',
+        '/-- `Peer._close` hands `FSM.IDLE` to `self.fsm.change` (read from the call) -/',
+        f'def closeChangesToIdle : Bool := {"true" if close_idle_ok else "false"}',
+        '',
+        t7.lean,
         'end Exa.Generated.PyPeer',
         '',
     ]
